@@ -147,3 +147,45 @@ fn nf_sk_fields() {
     let (_p, s) = crate::ml_dsa_87::KG::keygen_from_seed(&[1u8; 32]);
     run::<4896>(2, 8, 7, s.into_bytes(), &|b| crate::ml_dsa_87::PrivateKey::try_from_bytes(b).is_ok());
 }
+
+/// sign / verify round trips with generated, round-tripped and derived keys (2 seeds x 3 sets x 4 modes); a plain sample, used only
+/// as a fallback when key derivation / wrappers cannot be verified on the tree under test
+#[test]
+fn nf_roundtrip_keys() {
+    use crate::traits::{KeyGen, SerDes, Signer, Verifier};
+    use crate::types::Ph;
+    use rand_core::{CryptoRng, RngCore};
+    struct Fixed(u8);
+    impl RngCore for Fixed {
+        fn next_u32(&mut self) -> u32 { unimplemented!() }
+        fn next_u64(&mut self) -> u64 { unimplemented!() }
+        fn fill_bytes(&mut self, _d: &mut [u8]) { unimplemented!() }
+        fn try_fill_bytes(&mut self, d: &mut [u8]) -> Result<(), rand_core::Error> { for b in d.iter_mut() { *b = self.0; self.0 = self.0.wrapping_add(1); } Ok(()) }
+    }
+    impl CryptoRng for Fixed {}
+    macro_rules! go { ($m:ident) => {{
+        for seed in [3u8, 77u8] {
+            let (pk, sk) = crate::$m::KG::keygen_from_seed(&[seed; 32]);
+            let pk_rt = crate::$m::PublicKey::try_from_bytes(pk.clone().into_bytes()).unwrap();
+            let sk_rt = crate::$m::PrivateKey::try_from_bytes(sk.clone().into_bytes()).unwrap();
+            let pk_d = sk.get_public_key();
+            let pk_d2 = sk_rt.get_public_key();
+            assert_eq!(pk.clone().into_bytes(), pk_d.clone().into_bytes(), "derived pk bytes differ (seed {})", seed);
+            let ctx = [5u8; 255];
+            let msg = [seed; 100];
+            for s in [&sk, &sk_rt] {
+                let sig = s.try_sign_with_rng(&mut Fixed(seed), &msg, &ctx).unwrap();
+                for (name, p) in [("generated", &pk), ("round-tripped", &pk_rt), ("derived", &pk_d), ("derived from round-tripped sk", &pk_d2)] {
+                    assert!(p.verify(&msg, &sig, &ctx), "pure signature rejected by {} public key ({}, seed {})", name, stringify!($m), seed);
+                }
+                for ph in [Ph::SHA256, Ph::SHA512, Ph::SHAKE128] {
+                    let sig = s.try_hash_sign_with_rng(&mut Fixed(seed), &msg, &ctx, &ph).unwrap();
+                    for (name, p) in [("generated", &pk), ("round-tripped", &pk_rt), ("derived", &pk_d), ("derived from round-tripped sk", &pk_d2)] {
+                        assert!(p.hash_verify(&msg, &sig, &ctx, &ph), "pre-hash signature rejected by {} public key ({}, seed {})", name, stringify!($m), seed);
+                    }
+                }
+            }
+        }
+    }}}
+    go!(ml_dsa_44); go!(ml_dsa_65); go!(ml_dsa_87);
+}
